@@ -87,6 +87,7 @@ fn hostile_scripts(rng: &mut Rng, nh: usize) -> Vec<Script> {
                 meta_hint: rng.usize(4) as u8,
                 finish_each: rng.chance(1, 5),
                 fail_via_response: rng.chance(1, 4),
+                skip_finish: false,
             }
         })
         .collect()
